@@ -495,19 +495,20 @@ Section Dict.
 
   (* T6: a configuration file entry for a known key gives the same result
      as assigning its (stripped, non-empty) text *)
-  Definition file_text (text : str) : str :=
-    strip (strip_dq (strip_sq (32 :: rstrip_by is_ws text))).
+  Definition file_text (rawval : str) : str :=
+    strip (strip_dq (strip_sq rawval)).
 
-  Theorem file_route_agrees : forall sec key text d,
-      let var := lower (strip key) in
+  Theorem file_entry_agrees : forall sec rawvar rawval d,
+      let var := lower (strip rawvar) in
+      var <> [] ->
       key_exists sec var = true ->
-      file_text text <> [] ->
-      file_route tbl feats sec key text d
-      = setitem sec var (VS (SStr (file_text text))) d.
+      file_text rawval <> [] ->
+      file_entry tbl feats sec rawvar rawval d
+      = setitem sec var (VS (SStr (file_text rawval))) d.
   Proof.
-    intros sec key text d var Hk Hne.
-    unfold file_route, load_value. fold var. fold (file_text text).
-    destruct (file_text text) as [|c0 val] eqn:Et; [contradiction|].
+    intros sec rawvar rawval d var Hvar Hk Hne.
+    unfold file_entry, load_value. fold var. fold (file_text rawval).
+    destruct (file_text rawval) as [|c0 val] eqn:Et; [contradiction|].
     rewrite Hk. rewrite setitem_eq.
     assert (lower var = var) as Hlv by (apply lower_idem).
     rewrite Hlv. cbn [decode].
@@ -522,10 +523,48 @@ Section Dict.
             = Ok (Some w)) as Hm.
     { destruct w as [x| | | | |]; try reflexivity.
       destruct x; try reflexivity. destruct s; [discriminate Hcw|reflexivity]. }
-    rewrite Hm. rewrite setitem_eq, Hlv.
+    rewrite Hm. destruct var as [|v0 var'] eqn:Evar; [contradiction|].
+    rewrite <- Evar in *.
+    rewrite setitem_eq, Hlv.
     rewrite (decode_of_clean w Hcw).
     rewrite (warns_nil_clean _ _ _ Hv Hcw).
     rewrite (apply_idempotent _ _ _ Ea). reflexivity.
+  Qed.
+
+  (* the line is split at its FIRST "=": later "=" belong to the value *)
+  Lemma split_first_first : forall sep a b,
+      count_c sep a = 0 -> split_first sep (a ++ sep :: b) = Some (a, b).
+  Proof.
+    intros sep a b. induction a as [|c a IH]; intro H; cbn [app split_first].
+    - rewrite Z.eqb_refl. reflexivity.
+    - cbn [count_c] in H.
+      assert (0 <= count_c sep a) as Hnn.
+      { clear. induction a as [|x a IH]; cbn [count_c]; [lia|].
+        destruct (x =? sep); lia. }
+      destruct (c =? sep) eqn:E; [lia|].
+      rewrite IH by lia. reflexivity.
+  Qed.
+
+  (* a whole line "<var> = <val>" (comment removed, stripped; not a section
+     header) of a file behaves like the assignment of the stripped text right
+     of the first "=" to the stripped, lower-cased name left of it *)
+  Theorem line_route_agrees : forall sec line rawvar rawval d,
+      let l := strip (before_hash line) in
+      (starts_with [91] l && ends_with [93] l) = false ->
+      count_c 61 rawvar = 0 ->
+      l = rawvar ++ 61 :: rawval ->
+      lower (strip rawvar) <> [] ->
+      key_exists sec (lower (strip rawvar)) = true ->
+      file_text rawval <> [] ->
+      line_route tbl feats sec line d
+      = setitem sec (lower (strip rawvar)) (VS (SStr (file_text rawval))) d.
+  Proof.
+    intros sec line rawvar rawval d l Hh Hc Hl Hvar Hk Hne.
+    unfold line_route. fold l. rewrite Hh.
+    destruct l as [|c0 l'] eqn:El.
+    - destruct rawvar; discriminate Hl.
+    - rewrite Hl. rewrite (split_first_first 61 rawvar rawval Hc).
+      apply file_entry_agrees; assumption.
   Qed.
 
   (* update / constructor: item assignment key by key *)
